@@ -162,6 +162,13 @@ func init() {
 		"Symbolic": func(e *Engine, st *State, fn *ssa.Function, a []Value, ins ssa.Instruction) []*State {
 			return e.ret(st, e.tt.True)
 		},
+		"FixedNow": func(e *Engine, st *State, fn *ssa.Function, a []Value, ins ssa.Instruction) []*State {
+			if t, ok := a[0].(*Term); ok && t.IsConst() {
+				v := int64(t.Val)
+				e.fixedNow = &v
+			}
+			return e.ret(st, Tuple{})
+		},
 		"HostFS": func(e *Engine, st *State, fn *ssa.Function, a []Value, ins ssa.Instruction) []*State {
 			e.hostFS = true
 			return e.ret(st, Tuple{})
@@ -199,6 +206,11 @@ func init() {
 			e.Nondet = append(e.Nondet, "time.Now @ "+e.pos(ins))
 			// wall = 0 (no monotonic), ext = arbitrary seconds since year 1, loc = nil (UTC)
 			sec := e.tt.FreshVar("time.Now", 64)
+			if e.fixedNow != nil {
+				// vp.FixedNow: the clock reading is pinned (an under-approximation chosen by the harness)
+				sec = e.tt.Const(64, uint64(*e.fixedNow+62135596800))
+				e.Models["time.Now pinned by vp.FixedNow (clock value not explored)"] = true
+			}
 			tm := &Agg{Elems: []Value{e.tt.Const(64, 0), sec, Pointer{}}, Epoch: -1}
 			return e.ret(st, tm)
 		},
